@@ -66,7 +66,7 @@ def main():
                     ok = r.returncode == 0 and not viol
                 else:
                     ok = r.returncode == 1 and bool(viol)
-                rows.append((sid, p, ("caught" if expect != "quiet" else "quiet") if ok else "MISSED rc=%d %s" % (r.returncode, (viol or r.stdout.splitlines()[-1:])[:1]),
+                rows.append((sid, p, ("caught" if expect != "quiet" else "quiet") if ok else ("MISSED" if expect != "quiet" else "FALSE-ALARM") + " rc=%d %s" % (r.returncode, (viol or r.stdout.splitlines()[-1:])[:1]),
                              round(time.time() - t, 1), (viol[0] if viol else "")))
         finally:
             sh(["git", "-C", REPO, "checkout", "--", "."])
@@ -76,7 +76,7 @@ def main():
     bad = 0
     for row in rows:
         print("%-28s %-4s %-60s %6ss %s" % (row[0], row[1], row[2][:60], row[3], row[4] if len(row) > 4 else ""))
-        if "MISSED" in row[2] or "APPLY" in row[2]:
+        if "MISSED" in row[2] or "APPLY" in row[2] or "FALSE-ALARM" in row[2]:
             bad += 1
     if not a.in_place:
         import shutil
